@@ -390,6 +390,35 @@ def judge(ctx, case):
                       "caller's cache_vals", case, repr(before)[:120],
                       repr(caller)[:120])
         return
+    # what the embedder supplied is there for EVERY script of an
+    # authorization: a later script reads each str-keyed entry exactly as a
+    # single script does (the probe's verdict says whether GET_VALUE could
+    # read it; the scripts before it touch nothing)
+    if len(script) % 4 == 0:
+        from ..gen import auth as _auth
+        neutral = isa.op('TRUE') + isa.op('POP0')
+        for k in [k for k in before if type(k) is str][:6]:
+            kb = k.encode()
+            if not 0 < len(kb) < 256:
+                continue
+            probe = isa.op('GET_VALUE') + bytes([len(kb)]) + kb \
+                + _auth.sweeper()
+            seen = []
+            for pre in (0, 1, 2):
+                try:
+                    seen.append(functions.run_auth_scripts(
+                        [neutral] * pre + [probe], copy.deepcopy(before),
+                        {CID: Recorder()}))
+                except BaseException as e:
+                    seen.append(repr(e)[:40])
+            ctx.count('later_script_reads_of_embedder_entries')
+            if len(set(map(repr, seen))) != 1:
+                ctx.violation('embedder-entry-gone-for-later-script',
+                              f'str-keyed entry {k!r}: GET_VALUE in the 1st / '
+                              '2nd / 3rd script of an authorization gives '
+                              f'{seen} (the scripts before it only push and '
+                              'pop)', case, 'the same verdict', seen)
+                return
     if nt:
         ctx.mark_nontrivial(hashlib.blake2b(
             script + repr(sorted(map(repr, vals))).encode()
